@@ -105,13 +105,12 @@ Fixpoint local_bound_ok (I m cap : Z) (calls : list (Z * Z * bool)) : bool :=
 (* THE LOCAL BOUND of the property: granted <= burst + rate * elapsed, in units of 10^-9 token:
    granted*10^9 <= burst*10^9 + rate*(elapsed ns + 2).  (The 2 ns: x/time/rate truncates the
    waiting time of a reservation to whole ns, so it grants up to 1 ns early.)
-   Only the tree as it was before the repair 9e9cefb (rescue limiter built from the truncated
-   interval floor(10^9/rate) ns, regenerated flag gen_rescue_exact = false) is judged by the
-   weaker bound granted*interval <= burst*interval + elapsed ns. *)
+   The tree as it was before the repair 9e9cefb (rescue limiter built from the truncated interval
+   floor(10^9/rate) ns: regenerated flag C03Consts.gen_rescue_exact = false, which breaks
+   GenProofs.rescue_exact_today) only met granted*interval <= burst*interval + elapsed ns and fails
+   this check (Pinned.rescue_truncated_interval_refuted). *)
 Definition rescue_bound_ok (rt bs : Z) (calls : list (Z * Z * bool)) : bool :=
-  if C03Consts.gen_rescue_exact
-  then local_bound_ok 1000000000 rt (bs * 1000000000 + 2 * rt) calls
-  else local_bound_ok (interval_ns rt) 1 (bs * interval_ns rt) calls.
+  local_bound_ok 1000000000 rt (bs * 1000000000 + 2 * rt) calls.
 
 (* walk the observed history: decisions taken with a reachable store and redisAlive = 1 must be
    the ideal shared bucket's (and must not fall back); the others are collected per instance *)
